@@ -11,8 +11,8 @@
    `variant` selects between the code as it is now (`current`: junction-inversion and slicing
    repairs f11f464 / 127fbf4 applied), the code before those repairs (`legacy`, kept only to
    document the repaired defects) and the code before string constants were escaped
-   (`prequote`: f11f464 / 127fbf4 applied, 60fb795 not).  The correspondence check runs `current`
-   = all three repairs applied. *)
+   (`prequote`), and before the four repairs of negation / Or-merging (`pre4`).  The correspondence
+   check runs `current` = every repair applied. *)
 From Coq Require Import ZArith List Bool String Ascii Lia.
 Import ListNotations.
 Open Scope string_scope.
@@ -300,16 +300,17 @@ Record variant := mkVariant {
   fix_inverted_merge : bool;     (* inverted NamedQuerys are not merged by name (f11f464) *)
   fix_slice : bool;              (* __getitem__ via slice.indices; top-level filter inside the SQL query (127fbf4) *)
   fix_quote : bool;              (* string constants are escaped (60fb795) *)
-  fix_or_tables : bool;          (* proposed: an Or merges same-name queries only when they read the same tables *)
-  fix_not_info : bool;           (* proposed: ~InfoQuery selects the fits NOT IN the info sub-select *)
-  fix_not_null : bool;           (* proposed: NotCondition renders "(c) IS NOT TRUE" instead of "not (c)" *)
-  fix_not_junction : bool        (* proposed: ~ of an And / Or by De Morgan *)
+  fix_or_tables : bool;          (* an Or merges same-name queries only when they read the same tables (766ce6b) *)
+  fix_not_info : bool;           (* ~InfoQuery selects the fits NOT IN the info sub-select (596613e) *)
+  fix_not_null : bool;           (* NotCondition renders "(c) IS NOT TRUE" instead of "not (c)" (79488b4) *)
+  fix_not_junction : bool        (* ~ of an And / Or by De Morgan (21e37aa) *)
 }.
 Definition legacy := mkVariant false false false false false false false.
 Definition prequote := mkVariant true true false false false false false.
-Definition current := mkVariant true true true false false false false.
-(* the code with proposed_fixes/C10-{or-merge-same-tables,not-info,not-null-safe,not-junction}.diff applied *)
-Definition next := mkVariant true true true true true true true.
+(* before 766ce6b / 21e37aa / 79488b4 / 596613e (history; reachable only through VERIF_C10_VARIANT) *)
+Definition pre4 := mkVariant true true true false false false false.
+(* the code as it is: every repair applied *)
+Definition current := mkVariant true true true true true true true.
 
 Fixpoint flatten (k : jk) (q : qobj) : list qobj :=
   match q with
@@ -961,7 +962,7 @@ Definition case_labels := case_labels_with current.
    copy (VERIF_C10_VARIANT) *)
 Definition case_labels_prequote := case_labels_with prequote.
 Definition case_labels_legacy := case_labels_with legacy.
-Definition case_labels_next := case_labels_with next.
+Definition case_labels_pre4 := case_labels_with pre4.
 Definition case_labels_ortab := case_labels_with (mkVariant true true true true false false false).
 Definition case_labels_ninfo := case_labels_with (mkVariant true true true false true false false).
 Definition case_labels_nnull := case_labels_with (mkVariant true true true false false true false).
